@@ -207,7 +207,7 @@ package leader
 //@   requires C01.key_is_group: key == e.key
 //@   requires C01+C02+C07.delete_only_by_stopping_leader: caller.mayDelete
 //@   requires C01+C02.delete_after_claim_cleared: $claimCleared
-//@   requires C01+C09+C02+C07.conditional_delete_names_own_write: Own(rev)
+//@   requires C01+C09+C02+C07.conditional_delete_names_own_write: Own(rev) || (caller.rereadOurs && rev == EntryRev(caller.rereadEntry))
 
 //@ iface KeyValue.Watch(key, opts)
 //@   requires C01.key_is_group: key == e.key
@@ -708,8 +708,22 @@ package leader
 //@   on ret time.Until as u set untilRes = u.result
 //@   on call time.After as a assert C09.stop_with_context_wait_bound: a.d == (opts.Timeout != 0 ? opts.Timeout : (dlOK ? untilRes : 5000000000))
 //@   ensures C08.demote_iff_claim_cleared: result == nil && !ctxNilL ==> (wasLeaderL ? (calls(onDemote) + scalls(onDemote) == 1 || (calls(onDemote) + scalls(onDemote) == 0 && demoteNilSeen)) : calls(onDemote) + scalls(onDemote) == 0)
-//@   ensures C09.delete_issued: result == nil && !ctxNilL && opts.DeleteKey && wasLeaderL ==> calls(KeyValue.Delete) + calls(RevisionDeleter.DeleteRevision) == 1
-//@   ensures C01+C02+C07.delete_issued_at_most_once: calls(KeyValue.Delete) + scalls(KeyValue.Delete) + calls(RevisionDeleter.DeleteRevision) + scalls(RevisionDeleter.DeleteRevision) <= 1
+//@   ghost firstDel Bool = true
+//@   ghost refused Bool = false
+//@   ghost reread Bool = false
+//@   ghost rereadEntry Int = 0
+//@   ghost rereadOurs Bool = false
+//@   on ret RevisionDeleter.DeleteRevision as r when firstDel set refused = r.result != nil
+//@   on ret RevisionDeleter.DeleteRevision set firstDel = false
+//@   on ret KeyValue.Get as g set reread = true
+//@   on ret KeyValue.Get as g set rereadEntry = g.result0
+//@   ghost tokSeen Int = 0
+//@   on load kvElection.token as l set tokSeen = l.value
+//@   on ret KeyValue.Get as g set rereadOurs = g.result1 == nil && g.result0 != nil && ParseOK(EntryVal(g.result0)) && IDOf(EntryVal(g.result0)) == e.cfg.InstanceID && TokenOf(EntryVal(g.result0)) == tokSeen && tokSeen != ""
+//@   on call KeyValue.Get assert C09+C01.the_record_is_read_again_only_after_a_refused_delete: refused
+//@   ensures C09.delete_issued: result == nil && !ctxNilL && opts.DeleteKey && wasLeaderL ==> calls(KeyValue.Delete) + calls(RevisionDeleter.DeleteRevision) >= 1
+//@   ensures C09.the_record_is_gone_when_a_stop_with_delete_returns: result == nil && !ctxNilL && opts.DeleteKey && wasLeaderL && refused ==> reread && (rereadOurs ==> calls(RevisionDeleter.DeleteRevision) == 2)
+//@   ensures C01+C02+C07.delete_issued_at_most_once: calls(KeyValue.Delete) + scalls(KeyValue.Delete) + calls(RevisionDeleter.DeleteRevision) + scalls(RevisionDeleter.DeleteRevision) <= ((refused && rereadOurs) ? 2 : 1)
 //@   ghost released Bool = false
 //@   on ret KeyValue.Delete set released = true
 //@   on ret RevisionDeleter.DeleteRevision set released = true
